@@ -14,6 +14,7 @@ Judge(c) ==
     [] c.op = "file_ind" -> Judge_file_ind(c)
     [] c.op = "is_avro" -> Judge_is_avro(c)
     [] c.op = "whist" -> Judge_whist(c)
+    [] c.op = "flushvis" -> Judge_flushvis(c)
     [] c.op = "parse" -> Judge_parse(c)
     [] c.op = "logical" -> Judge_logical(c)
     [] c.op = "validate" -> Judge_validate(c)
